@@ -145,6 +145,10 @@ class Impl:
         if k == "touch":
             os.utime(self.P(op["path"]), (op["mtime"], op["mtime"]))
             return None
+        if k == "cptree":
+            # a folder copied with everything in it, its ascmhl folder included (a card and its backup side by side)
+            shutil.copytree(self.P(op["src"]), self.P(op["dst"]), symlinks=True)
+            return None
         if k == "tamper":
             ad = os.path.join(self.P(op["hist"]), "ascmhl")
             ms = sorted(f for f in os.listdir(ad) if f.endswith(".mhl"))
@@ -222,6 +226,11 @@ class Impl:
         elif sp == "cwd":
             cwd = at
             at = "."
+        elif sp == "updir":
+            # the root spelled through one of its own sub-folders: root/<sub>/..
+            subs = sorted(d for d in os.listdir(at) if os.path.isdir(os.path.join(at, d)) and d != "ascmhl") if os.path.isdir(at) else []
+            if subs:
+                at = os.path.join(at, subs[0], "..")
         absat = self.P(op.get("at", ""))
         sfbase = absat
         if sp == "symlink":
@@ -284,7 +293,11 @@ class Impl:
         elif k == "infosf":
             if not os.path.exists(os.path.join(absat, op["file"])) or not os.path.isdir(absat):
                 return None
-            if op.get("auto_root"):
+            if op.get("rel_cwd") and "/" in op["file"]:
+                # a relative FILE path, given from the folder the file is in (not the history root)
+                fdir, fname = os.path.split(os.path.join(sfbase, op["file"]))
+                r = rt.run("info", ([] if op.get("auto_root") else [at]) + ["-sf", fname], now, fdir)
+            elif op.get("auto_root"):
                 # no ROOT_PATH: the tool searches upwards for the nearest ascmhl folder
                 r = rt.run("info", ["-sf", os.path.join(sfbase, op["file"])], now, cwd)
             else:
@@ -300,16 +313,20 @@ class Impl:
         elif k == "flatten":
             self.flat_n += 1
             dest = os.path.join(self.base, "_flat%d" % self.flat_n)
+            fopts = []
+            for o2 in ("author_name", "author_email", "author_phone", "author_role", "location", "comment"):
+                if op.get(o2) is not None:
+                    fopts += ["--" + o2, op[o2]]
             if op.get("dest_missing_parent"):
                 # a destination whose parent folders do not exist (a mistyped volume): whatever flatten does, it has no
                 # business creating folders that are not below the destination
                 dest = os.path.join(self.base, "_nowhere%d" % self.flat_n, "deep", "lists")
-                r = rt.run("flatten", [at, dest], now, cwd)
+                r = rt.run("flatten", [at, dest] + fopts, now, cwd)
             elif op.get("dest_rel"):
                 # relative destination, invoked from the parent of the scenario root
-                r = rt.run("flatten", [at, "_flat%d" % self.flat_n], now, self.base)
+                r = rt.run("flatten", [at, "_flat%d" % self.flat_n] + fopts, now, self.base)
             else:
-                r = rt.run("flatten", [at, dest], now, cwd)
+                r = rt.run("flatten", [at, dest] + fopts, now, cwd)
             op["_dest"] = dest
         else:
             raise ValueError(k)
@@ -493,8 +510,8 @@ def run_scenario(sc, drv=None, keep=False, impl_only=False):
                     drv.send({"op": "write", "path": op["path"], "content": data_bytes(op["data"]).hex()})
                 elif k in ("mkdir", "rm", "mv", "rmhist"):
                     drv.send(op)
-                elif k == "touch":
-                    pass
+                elif k in ("touch", "cptree"):
+                    pass  # (cptree only occurs in scenarios that run without the model)
                 elif k == "tamper":
                     if "file" in op:
                         drv.send({"op": "tamper", "hist": op["hist"], "file": op["file"], "state": op["state"]})
